@@ -131,8 +131,8 @@ class LivenessAnalysis(Generic[VId], BackwardAnalysis[LivenessDomain[VId]]):
         self._include_unreachable = include_unreachable
 
     def eq(self, live1: LivenessDomain[VId], live2: LivenessDomain[VId]) -> bool:
-        # Only check that both contain the same variables. We don't care about the BB
-        # in which the use occurs, we just need any one, to report to the user.
+        # Only check that both contain the same variables. The BBs in which the uses
+        # occur are normalised after the fixpoint is reached, see `run`.
         return live1.keys() == live2.keys()
 
     def initial(self) -> LivenessDomain[VId]:
@@ -146,6 +146,38 @@ class LivenessAnalysis(Generic[VId], BackwardAnalysis[LivenessDomain[VId]]):
         for t in ts:
             res |= t
         return res
+
+    def run(self, bbs: Iterable[BB]) -> Result[LivenessDomain[VId]]:
+        bbs = list(bbs)
+        live = super().run(bbs)
+        # Which use the fixpoint iteration recorded for a live variable depends on the
+        # order in which BBs were visited. Since the uses end up in error messages, pick
+        # them deterministically: a use in the BB
+        # itself, otherwise the use with the smallest BB index among the successors.
+        # Candidates only ever get smaller, so this terminates.
+        uses: Result[LivenessDomain[VId]] = {bb: {} for bb in bbs}
+        changed = True
+        while changed:
+            changed = False
+            for bb in bbs:
+                succs = (
+                    bb.successors + bb.dummy_successors
+                    if self.include_unreachable()
+                    else bb.successors
+                )
+                for x in live[bb]:
+                    cands = [uses[succ][x] for succ in succs if x in uses.get(succ, {})]
+                    if x in self.stats[bb].used:
+                        cands = [bb]
+                    if not cands:
+                        continue
+                    use = min(cands, key=lambda b: b.idx)
+                    if x not in uses[bb] or use.idx < uses[bb][x].idx:
+                        uses[bb][x] = use
+                        changed = True
+        return {
+            bb: {x: uses[bb].get(x, use) for x, use in live[bb].items()} for bb in bbs
+        }
 
     def apply_bb(self, live_after: LivenessDomain[VId], bb: BB) -> LivenessDomain[VId]:
         stats = self.stats[bb]
